@@ -246,6 +246,38 @@ module Rng = struct
     loop ()
 end
 
+(* ---------- forced-mate solver over the rules specification (GameValue: Win n / Loss n) ----------
+   loss p n : the side to move is checkmated now, or (n >= 2) has a legal move and every legal move leads to win _ (n-1)
+   win  p n : (n >= 1) some legal move leads to loss _ (n-1).   n counts plies.  Memoised on (placement, side, rights, ep, n). *)
+let memo : (string, bool) Hashtbl.t = Hashtbl.create 100000
+let key_of p n tag = (let f = spec_fen p in
+  let parts = String.split_on_char ' ' f in
+  String.concat " " [L.nth parts 0; L.nth parts 1; L.nth parts 2; L.nth parts 3]) ^ tag ^ string_of_int n
+let rec spec_loss (p : Rules.pos) (n : int) : bool =
+  let k = key_of p n "L" in
+  match Hashtbl.find_opt memo k with
+  | Some b -> b
+  | None ->
+    let ms = Rules.legal_moves p in
+    let b =
+      if ms = [] then Rules.king_attacked p p.Rules.p_turn
+      else if n < 2 then false
+      else L.for_all (fun m -> spec_win (freeze (Rules.apply p m)) (n - 1)) ms in
+    Hashtbl.replace memo k b; b
+and spec_win (p : Rules.pos) (n : int) : bool =
+  if n < 1 then false else
+  let k = key_of p n "W" in
+  match Hashtbl.find_opt memo k with
+  | Some b -> b
+  | None ->
+    let ms = Rules.legal_moves p in
+    let b = L.exists (fun m -> spec_loss (freeze (Rules.apply p m)) (n - 1)) ms in
+    Hashtbl.replace memo k b; b
+let spec_mate_distance p maxn =
+  let rec go n = if n > maxn then None else if spec_win p n then Some n else go (n + 2) in go 1
+let move_of_raw (m : coq_N) : Rules.move =
+  { Rules.mv_from = MoveEnc.m_origin m; mv_to = MoveEnc.m_dest m; mv_promo = MoveEnc.m_promotion m }
+
 let hashers : (string, Text.hasher) Hashtbl.t = Hashtbl.create 16
 
 (* ---------- commands ---------- *)
@@ -509,6 +541,39 @@ let run (cmd : string) (args : string list) : string =
         Printf.sprintf "%s #%d t%d%s" (String.concat " " evs) (int_of_n res.Search.r_gnodes) acc (if oc >= 2 then Printf.sprintf " MODEL-OUTCOME-%d" oc else ""))
       (String.split_on_char '|' fens) in
     String.concat " || " outs
+  | "specline", [fen; raws] ->
+    (* is the line (packed moves, read by their coordinates) legal move by move under the rules? *)
+    (match spec_pos fen with
+     | None -> "badfen"
+     | Some p0 ->
+       if raws = "" then "empty" else
+       let rec go p i = function
+         | [] -> "legal"
+         | r :: tl ->
+           let mv = move_of_raw (n_of_dec r) in
+           if int_of_n mv.Rules.mv_from < 64 && int_of_n mv.Rules.mv_to < 64 && L.mem mv (Rules.legal_moves p)
+           then go (freeze (Rules.apply p mv)) (i + 1) tl else Printf.sprintf "illegal-at-%d" i in
+       go (freeze p0) 0 (String.split_on_char ',' raws))
+  | "specmate", [fen; maxn] ->
+    (* shortest forced mate for the side to move within maxn plies, and which first moves keep a forced mate (within maxn-1) *)
+    (match spec_pos fen with
+     | None -> "badfen"
+     | Some p ->
+       let p = freeze p in
+       let maxn = int_of_string maxn in
+       (match spec_mate_distance p maxn with
+        | None -> "none"
+        | Some n ->
+          let keep = L.filter (fun m -> spec_loss (freeze (Rules.apply p m)) (maxn - 1)) (Rules.legal_moves p) in
+          Printf.sprintf "%d %s" n (String.concat ";" (L.map (fun m -> spec_move_str m ^ "=" ^ spec_fen (Rules.apply p m)) keep))))
+  | "speckeeps", [fen; raw; maxn] ->
+    (* does the move keep a forced mate against the opponent (opponent is lost within maxn plies)? *)
+    (match spec_pos fen with
+     | None -> "badfen"
+     | Some p ->
+       let mv = move_of_raw (n_of_dec raw) in
+       if not (L.mem mv (Rules.legal_moves p)) then "illegal"
+       else if spec_loss (freeze (Rules.apply p mv)) (int_of_string maxn) then "keeps" else "not-within-bound")
   | "hashstream", [seed] ->
     let r = Rng.of_seed_u64 (Int64.of_string ("0u" ^ seed)) in
     String.concat "," (L.init 1038 (fun _ -> dec_of_n (Rng.next_u64_n r)))
